@@ -360,6 +360,16 @@ def run(ctx):
                           "and without delegating to a guarded operator", fi.where)
         ctx.check(n_array_paths >= 1, "C19.c", f"{fi.qualname}:has-array-paths",
                   f"{n_array_paths} array-operand paths analysed", "no array-operand path found", fi.where)
+    # the sign guard lives in the `frequencies` setter: operators must not bypass it
+    for op in ops + ["__iadd__"]:
+        fi = HB.methods[op]
+        direct = [w for st in ast.walk(fi.node) if isinstance(st, ast.stmt) for w in writes_of(st)
+                  if w.root == "self" and w.attr == "_frequencies" and w.how in ("store", "aug")]
+        ctx.check(not direct, "C19.c", f"{fi.qualname}:contents-through-setter",
+                  "contents are stored through the validating `frequencies` setter only",
+                  f"`{U(direct[0].stmt)[:80]}` writes self._frequencies directly, bypassing the negative-contents "
+                  "guard of the setter (a negative factor / operand is then accepted without free arithmetics)"
+                  if direct else "", fi.where)
     # frequencies setter: negative contents
     fs = HB.setters.get("frequencies")
     if fs is None:
